@@ -218,12 +218,20 @@ def replay(prop, path):
     prog = d["program"]
     print(render.program(prog))
     out = runner.run_program(prog, opts={"reexport_every": 0})
-    bad = [f for f in out.findings if f.kind.startswith(("value:", "exc:sqlite", "san:I3"))]
+    from .. import kf
+
+    entries = kf.load()
+    bad = []
     for f in out.findings:
-        print(f.brief())
+        e = kf.classify(entries, prop, f, prog, None) if f.kind.startswith(("value:", "exc:sqlite", "san:I3")) else None
+        print((f"KNOWN-FINDING: property={prop} {e['id']} " if e else "") + f.brief())
+        if e is None and f.kind.startswith(("value:", "exc:sqlite", "san:I3")):
+            bad.append(f)
     print("refused:", out.refused)
     cache = {}
-    j, msg = first_subquery_error(prog, cache)
+    # the alias()-repair is only defined for programs whose references go through `C.` (an inserted alias() cuts
+    # references through earlier handles by design): re-run it only for a recorded repair finding
+    j, msg = first_subquery_error(prog, cache) if d.get("kind") == "repair" else (None, None)
     if j is not None:
         class R:
             counters = __import__("collections").Counter()
